@@ -242,6 +242,7 @@ type genOpts struct {
 	atomsInSpans      bool // atomic inlines may sit inside spans (defect domain KF11-6)
 	va                bool // vertical-align on spans and inline-blocks (judge-only stages)
 	collapseDeco      bool // white space that collapsing removes, inside extra inline elements after a space: `a <i> </i>b`
+	vpad              bool // spans get asymmetric vertical padding / border / margin (must not change line boxes)
 	spBr              bool // a space may directly precede <br> (defect domain KF11-1)
 	maxLeaves         int
 	maxWord           int
@@ -327,7 +328,15 @@ func (g *gen) content(n int) {
 					g.openSinceBreak = true
 				}
 				mr, br, pr := rng.Pick(g.r, 0, 0, 3, g.g/2, g.g), rng.Pick(g.r, 0, 0, 1, 2), rng.Pick(g.r, 0, 0, 4, g.g/2)
-				st := fmt.Sprintf("margin:0 %dpx 0 %dpx;border:solid;border-width:0 %dpx 0 %dpx;padding:0 %dpx 0 %dpx", mr, ml, br, bl, pr, pl)
+				mt, mb, bt, bb, pt, pb := 0, 0, 0, 0, 0, 0
+				if g.o.vpad {
+					// vertical padding, borders and margins of an inline box do not take part in the line box
+					// height (CSS 2.1 10.8.1): independent top and bottom values, both orders
+					pt, pb = rng.Pick(g.r, 0, 0, 3, g.g/2, g.g, 2*g.g), rng.Pick(g.r, 0, 0, 3, g.g/2, g.g, 2*g.g)
+					bt, bb = rng.Pick(g.r, 0, 0, 1, 2, 5), rng.Pick(g.r, 0, 0, 1, 2, 5)
+					mt, mb = rng.Pick(g.r, 0, 0, 0, 4, g.g), rng.Pick(g.r, 0, 0, 0, 6, g.g)
+				}
+				st := fmt.Sprintf("margin:%dpx %dpx %dpx %dpx;border:solid;border-width:%dpx %dpx %dpx %dpx;padding:%dpx %dpx %dpx %dpx", mt, mr, mb, ml, bt, br, bb, bl, pt, pr, pb, pl)
 				g.toks = append(g.toks, tok{k: tOpen, n: ml + bl + pl, html: `<span style="` + st + g.valign() + `">`})
 				before := g.leaves
 				g.depth++
